@@ -187,8 +187,7 @@ func generate(rng *rand.Rand, k Knobs, profile string) *Prog {
 					t.XVia = "env"
 					t.UsesX = false
 				case 1:
-					t.XVia = "sub"
-					t.UsesX = false
+					// (the "sub" variant needs a callee of its own: it is generated by the dedup skeleton)
 				}
 			}
 		default:
@@ -506,7 +505,33 @@ func skeleton(rng *rand.Rand, profile string) *Prog {
 		which = 4
 	}
 	switch which {
-	case 4: // a when_changed task whose two variables reach only its env, called with swapped / doubled values
+	case 4: // a when_changed task whose variables reach only its env (or only its sub-call), called with swapped / doubled values
+		if rng.Intn(2) == 0 {
+			// X reaches the callee's commands only through the vars of its own sub-call
+			mk(4)
+			p.Tasks[1].Run, p.Tasks[1].XVia = WhenChanged, "sub"
+			fwd := ref(3)
+			fwd.X = "{{.X}}"
+			p.Tasks[1].Entries = []*Entry{{Kind: Call, Ref: fwd}}
+			p.Tasks[3].UsesX, p.Tasks[3].PFromX = true, true
+			p.Tasks[3].Entries = probes(1)
+			vals := []string{"one", "two", "one", "three"}
+			for k, v := range vals[:2+rng.Intn(3)] {
+				r := ref(1)
+				r.X = v
+				if viaCall || k%2 == 0 {
+					p.Tasks[0].Entries = append(p.Tasks[0].Entries, &Entry{Kind: Call, Ref: r})
+				} else {
+					p.Tasks[2].Deps = append(p.Tasks[2].Deps, r)
+				}
+			}
+			p.Tasks[2].Entries = probes(1)
+			p.Tasks[0].Entries = append(p.Tasks[0].Entries, &Entry{Kind: Call, Ref: ref(2)})
+			p.Roots = []*Ref{ref(0)}
+			p.Conc = []int{0, 0, 1, 2}[rng.Intn(4)]
+			p.Yes = true
+			return p
+		}
 		mk(3)
 		p.Tasks[1].Run, p.Tasks[1].XVia = WhenChanged, "env"
 		p.Tasks[1].Entries = probes(1)
